@@ -253,3 +253,106 @@ Definition check_case (c : nat * Q * Q * Q * list op) : bool :=
   let '(n, alpha, eps, init, ops) := c in check_ops alpha eps (init_cst n init) ops.
 Definition first_bad_case (c : nat * Q * Q * Q * list op) : option nat :=
   let '(n, alpha, eps, init, ops) := c in first_bad alpha eps (init_cst n init) ops 0.
+
+(* ================================================================== round 4 (generator sweep) *)
+(* ------------------------------------------------------------------ attribute values in force *)
+(* `alpha` and `eps` are public attributes read at every call (get_step_size :58, policy :81): the value in force at
+   a call is the one assigned last.  A learn sequence where every call carries the learning rate then in force: *)
+Definition run_learn_v (s : agent) (tr : list (Q * (nat * Q))) : agent :=
+  fold_left (fun s x => learn (fst x) s (fst (snd x)) (snd (snd x))) tr s.
+Definition rewards_of_v (a : nat) (tr : list (Q * (nat * Q))) : list Q := rewards_of a (map snd tr).
+
+(* the agent loop where every round carries the (alpha, eps) in force *)
+Fixpoint replay_v (s : agent) (rounds : list ((Q * Q) * (Q * nat))) (rewards : list Q) : list nat :=
+  match rounds, rewards with
+  | (ae, d) :: ds, r :: rs => let a := act_of (snd ae) s d in a :: replay_v (learn (fst ae) s a r) ds rs
+  | _, _ => []
+  end.
+
+(* ------------------------------------------------------------------ CalibrationEnv.step / reset *)
+(* step (envs/base.py:64-79):
+     _assert(self.action_space.contains(action))        -- plain Exception, before anything else happens
+     self._out_queue.put(action) ; result = self._in_queue.get()
+     if result is None: return self.reset_state(), 0.0, False, True, {}       -- end of session: reference untouched
+     best_param, best_loss = result
+     reward = self.get_reward(best_param, best_loss)
+     return next_obs, reward, False, False, {}
+   `valid` = the action is inside Discrete(nb_samplers); msg = what the scheduler put on the queue.
+   Result: (reward, truncated). *)
+Definition env_step (valid : bool) (ref : env) (msg : option Q) : result (Q * bool) * env :=
+  if valid then
+    match msg with
+    | None => (Ok (0, true), ref)
+    | Some loss =>
+        let '(o, ref') := get_reward ref loss in
+        (match o with Ok r => Ok (r, false) | Raise e => Raise e end, ref')
+    end
+  else (Raise OtherError, ref).
+
+(* reset (envs/base.py:55-62): returns (self.reset_state(), {}) and nothing else *)
+Definition env_reset (ref : env) : env := ref.
+
+Fixpoint env_steps (ref : env) (msgs : list (option Q)) : list (result (Q * bool)) * env :=
+  match msgs with
+  | [] => ([], ref)
+  | m :: t => let '(o, ref') := env_step true ref m in
+              let '(os, ref'') := env_steps ref' t in (o :: os, ref'')
+  end.
+(* the losses among the messages (end-of-session markers dropped) *)
+Fixpoint losses_of (msgs : list (option Q)) : list Q :=
+  match msgs with [] => [] | Some x :: t => x :: losses_of t | None :: t => losses_of t end.
+
+(* ------------------------------------------------------------------ correspondence with reassigned attributes *)
+Inductive xop :=
+| XOp (o : op)                                   (* a call of the first kind, checked by check_op *)
+| XSetAlpha (a : Q)                              (* agent.alpha = a *)
+| XSetEps (e : Q)                                (* agent.eps = e *)
+| XSetQ (l : list Q)                             (* agent.Q = l   or   agent.Q[:] = l *)
+| XSetC (l : list nat)                           (* agent.actions_count = l *)
+| XSetN (n : nat)                                (* agent.n_actions = n *)
+| XEnvReset                                      (* env.reset(seed=...) *)
+| XStep (valid : bool) (msg : option Q) (oexn : option exn) (orew : Q) (otrunc : bool) (oref : option Q).
+
+Record xst := mkX { x_alpha : Q; x_eps : Q; x_c : cst }.
+
+Fixpoint qmaxabs (l : list Q) : Q := match l with [] => 0 | x :: t => qmax (Qabs x) (qmaxabs t) end.
+
+Definition check_xop (x : xst) (o : xop) : bool * xst :=
+  let c := x_c x in
+  match o with
+  | XOp o' => let '(ok, c') := check_op (x_alpha x) (x_eps x) c o' in (ok, mkX (x_alpha x) (x_eps x) c')
+  | XSetAlpha a => (true, mkX a (x_eps x) c)
+  | XSetEps e => (true, mkX (x_alpha x) e c)
+  | XSetQ l => (true, mkX (x_alpha x) (x_eps x)
+                        (mkCst (mkAgent (n_act (c_ag c)) l (cnts (c_ag c))) l (c_ref c) (qmax (c_scale c) (qmaxabs l))))
+  | XSetC l => (true, mkX (x_alpha x) (x_eps x)
+                        (mkCst (mkAgent (n_act (c_ag c)) (qs (c_ag c)) l) (c_fq c) (c_ref c) (c_scale c)))
+  | XSetN n => (true, mkX (x_alpha x) (x_eps x)
+                        (mkCst (mkAgent n (qs (c_ag c)) (cnts (c_ag c))) (c_fq c) (c_ref c) (c_scale c)))
+  | XEnvReset => (true, mkX (x_alpha x) (x_eps x) (mkCst (c_ag c) (c_fq c) (env_reset (c_ref c)) (c_scale c)))
+  | XStep valid msg oexn orew otrunc oref =>
+      let '(res, ref') := env_step valid (c_ref c) msg in
+      let ok :=
+        match res, oexn with
+        | Ok (rw, tr), None => close_rel orew rw && Bool.eqb otrunc tr
+        | Raise e, Some e' => exn_eqb e e'
+        | _, _ => false
+        end in
+      (ok && oq_eqb oref ref', mkX (x_alpha x) (x_eps x) (mkCst (c_ag c) (c_fq c) ref' (c_scale c)))
+  end.
+
+Fixpoint check_xops (x : xst) (ops : list xop) : bool :=
+  match ops with
+  | [] => true
+  | o :: t => let '(ok, x') := check_xop x o in if ok then check_xops x' t else false
+  end.
+Fixpoint first_xbad (x : xst) (ops : list xop) (k : nat) : option nat :=
+  match ops with
+  | [] => None
+  | o :: t => let '(ok, x') := check_xop x o in if ok then first_xbad x' t (S k) else Some k
+  end.
+
+Definition check_xcase (c : nat * Q * Q * Q * list xop) : bool :=
+  let '(n, alpha, eps, init, ops) := c in check_xops (mkX alpha eps (init_cst n init)) ops.
+Definition first_xbad_case (c : nat * Q * Q * Q * list xop) : option nat :=
+  let '(n, alpha, eps, init, ops) := c in first_xbad (mkX alpha eps (init_cst n init)) ops 0.
